@@ -256,6 +256,25 @@ def parts_roundtrip(chk, n):
             chk.violation(f"Font.glyphmap codepoints {[g.codepoints for g in gm]}", {})
         if worker.color_format != "glyf_colr_1" or [Path(s).name for s in worker.masters[0].sources] != ["emoji_u1f600.svg", "emoji_u1f601.svg"]:
             chk.violation("Font.toml does not carry the driver's format / sources", {"toml": (sb.build / "Font.toml").read_text()})
+        # the driver is run again on the same build directory with other flags (and once more with the first ones): what a
+        # worker loads is what the driver resolved THIS time, field for field
+        runs = [(["--family", "Second Family", "--upem", "2048", "--ascender", "1800", "--descender", "-400"],
+                 {"family": "Second Family", "upem": 2048, "ascender": 1800, "descender": -400}),
+                (["--keep_glyph_names", "--width", "0"], {"family": "An Emoji Family", "upem": 1024, "keep_glyph_names": True, "width": 0}),
+                ([], {"family": "An Emoji Family", "upem": 1024, "ascender": 950, "descender": -250, "keep_glyph_names": False})]
+        for flags, want in runs:
+            rc, out = sb.run(["--color_format", "glyf_colr_1"] + flags + sorted(files))
+            chk.case(key=("cli-handoff-rerun", tuple(flags)), nontrivial=True)
+            chk.traces_validated += 1
+            if rc != 0:
+                chk.violation(f"re-running the driver with {flags} on a used build directory fails: {out[-300:]}", {"flags": flags})
+                continue
+            worker = config.load(sb.build / "Font.toml")
+            stale = {k: (getattr(worker, k), v) for k, v in want.items() if getattr(worker, k) != v}
+            if stale:
+                chk.violation(f"after re-running the driver with {flags or 'no flags'} the worker's Font.toml still says "
+                              f"{ {k: a for k, (a, b) in stale.items()} }, the driver resolved { {k: b for k, (a, b) in stale.items()} }",
+                              {"flags": flags, "toml": (sb.build / "Font.toml").read_text()})
 
 
 def rsp_roundtrip(chk):
